@@ -27,7 +27,7 @@ use wow_blp::types::{BlpContent, BlpImage};
 const SIZES: &[(u32, u32)] = &[(1, 1), (1, 2), (2, 1), (3, 5), (7, 8), (16, 16), (17, 31), (64, 1), (1, 64), (255, 256), (512, 512), (300, 200)];
 /// further fixed sizes: small squares, non-square sizes whose sides share an octave (full chain even with the chain defect), texture-like 256x64
 // the last two need all 16 entries of the mipmap locator table (floor(log2(side)) == 15)
-const EXTRA_SIZES: &[(u32, u32)] = &[(32768, 1), (1, 40000), (2, 2), (4, 4), (8, 8), (5, 7), (12, 9), (33, 63), (100, 127), (256, 64), (8, 2), (5, 1)];
+const EXTRA_SIZES: &[(u32, u32)] = &[(32768, 1), (1, 40000), (1, 65535), (65535, 1), (2, 65534), (2, 2), (4, 4), (8, 8), (5, 7), (12, 9), (33, 63), (100, 127), (256, 64), (8, 2), (5, 1)];
 const CONTENTS: &[&str] = &["transparent", "opaque", "le256", "gt256", "gradient"];
 const FILTERS3: &[&str] = &["nearest", "triangle", "lanczos3"];
 const FILTERS5: &[&str] = &["nearest", "triangle", "catmullrom", "gaussian", "lanczos3"];
@@ -661,6 +661,8 @@ fn lower_level_alpha_law(c: &mut Case, cx: &Ctx, d: u8, level: usize, src: &Rgba
     true
 }
 
+static SCRATCH: std::sync::OnceLock<std::path::PathBuf> = std::sync::OnceLock::new();
+
 fn run_case(c: &mut Case, spec: &Spec, rng: &mut Rng) {
     let t = spec.tgt;
     let tname = t.name();
@@ -851,6 +853,53 @@ fn run_case(c: &mut Case, spec: &Spec, rng: &mut Rng) {
         Ok(Ok(y)) => y,
     };
     c.count("parsed_ok", 1);
+    // ---- the same texture through the file interface, on a path that held a larger texture before (its files stay behind:
+    // a longer main file, external level files beyond the ones this texture has), and - BLP0 - through a callback that can
+    // serve more levels than the texture has: the same structure as the in-memory parse
+    if t.ver == 0 {
+        let mut stale = externals.clone();
+        stale.extend([vec![0xAB; 4], vec![0xCD; 1], vec![1, 2, 3, 4, 5, 6, 7, 8, 9]]);
+        match trap(|| parse_blp_with_externals(&bytes, |i| preloaded_mipmaps(&stale, i)).map_err(|e| format!("{e}"))) {
+            Ok(Ok(y2)) => {
+                c.count("blp0_parsed_with_surplus_external_files", 1);
+                if y2 != y {
+                    c.violate(cx.sig("parse-depends-on-surplus-externals", "callback"), format!("a callback that can serve {} external files for a texture of {} levels changes the parsed structure ({} images instead of {})", stale.len(), externals.len(), y2.image_count(), y.image_count()), json!({}));
+                }
+            }
+            Ok(Err(e)) => c.violate(cx.sig("parse-depends-on-surplus-externals", "callback-error"), format!("parse fails when the callback can serve more external files than needed: {e}"), json!({})),
+            Err(p) => c.violate(format!("panic|parse_blp|{}|{}|{}", t.ver_name(), t.enc_name(), p.sig()), p.msg.clone(), json!({})),
+        }
+    }
+    if bytes.len() < (1 << 20) && (c.idx % 5 == 0 || t.ver == 0) {
+        if let Some(dir) = SCRATCH.get() {
+            let path = dir.join(format!("c16-{}-tex.blp", std::process::id()));
+            let mut prior = bytes.clone();
+            prior.extend(std::iter::repeat_n(0x5Au8, 3000));
+            let _ = std::fs::write(&path, &prior);
+            let nstale = externals.len() + 3;
+            for i in 0..nstale {
+                if let Some(mp) = wow_blp::path::make_mipmap_path(&path, i) {
+                    let _ = std::fs::write(mp, vec![0x77u8; 1 + 37 * i]);
+                }
+            }
+            match trap(|| wow_blp::encode::save_blp(&x, &path).map_err(|e| format!("{e}")).and_then(|_| wow_blp::parser::load_blp(&path).map_err(|e| format!("{e}")))) {
+                Ok(Ok(y3)) => {
+                    c.count("saved_and_loaded_over_a_larger_texture", 1);
+                    if y3 != y {
+                        c.violate(cx.sig("file-roundtrip-differs", "path-held-a-larger-texture"), format!("save_blp + load_blp on a path that held a larger texture yields {} images, the in-memory parse {}", y3.image_count(), y.image_count()), json!({}));
+                    }
+                }
+                Ok(Err(e)) => c.violate(cx.sig("file-roundtrip-fails", "path-held-a-larger-texture"), format!("save_blp + load_blp fails for a texture that encodes and parses in memory: {e}"), json!({})),
+                Err(p) => c.violate(format!("panic|save_load_blp|{}|{}|{}", t.ver_name(), t.enc_name(), p.sig()), p.msg.clone(), json!({})),
+            }
+            let _ = std::fs::remove_file(&path);
+            for i in 0..nstale {
+                if let Some(mp) = wow_blp::path::make_mipmap_path(&path, i) {
+                    let _ = std::fs::remove_file(mp);
+                }
+            }
+        }
+    }
 
     // ---- (a) structural identity
     // yn = y with the consequences of D1 / D2 undone, each only where its exact shape is present; everything else stays as parsed
@@ -1154,6 +1203,7 @@ fn encode_error(c: &mut Case, cx: &Ctx, tname: &str, dbg: &str, text: &str) {
 fn main() {
     let mut run = Run::new();
     let thorough = run.args.thorough();
+    let _ = SCRATCH.set(std::path::PathBuf::from(&run.args.scratch));
     let specs = build_specs(thorough, run.args.seed);
     run.extra("case_space", json!(specs.len()));
     let mut classes: HashSet<String> = HashSet::new();
